@@ -1991,6 +1991,8 @@ class Interp:
                 return h(self, fi, args, kwargs, node)
             # self recursion (direct or mutual through the current stack): recorded, not unfolded
             for fr in self.state.frames:
+                if getattr(self, "unfold_recursion", False):
+                    break  # concrete evaluation (a finite tree): the recursion is followed to its end (bounded by max_depth)
                 if fr.func is not None and fr.func.qualname == fi.qualname and not fr.is_comp:
                     if kwargs:
                         # keyword arguments in their parameter's position (rules read the recursive call by role)
